@@ -122,6 +122,12 @@ func (c *c08Opts) carried(v ssa.Value, depth int) (ssa.Value, string) {
 		return c.carried(x.X, depth+1)
 	case *ssa.ChangeType:
 		return c.carried(x.X, depth+1)
+	case *ssa.UnOp:
+		// a variable that function literals capture and nobody reassigns (read by the declaring function or by a literal):
+		// the one value it holds - for a captured parameter, that parameter of the enclosing function
+		if w, ok := c08CapturedValue(x); ok {
+			return c.carried(w, depth+1)
+		}
 	case *ssa.Extract:
 		if call, ok := x.Tuple.(*ssa.Call); ok && x.Index == 0 {
 			if n, _ := calleeName(&call.Call); ctxDerivers[n] && len(call.Call.Args) > 0 {
@@ -184,6 +190,11 @@ func (c *c08Opts) optsRoot(v ssa.Value, depth int) (ssa.Value, string) {
 	switch x := v.(type) {
 	case *ssa.ChangeType:
 		return c.optsRoot(x.X, depth+1)
+	case *ssa.UnOp:
+		// a captured variable that holds one value (see carried)
+		if w, ok := c08CapturedValue(x); ok {
+			return c.optsRoot(w, depth+1)
+		}
 	case *ssa.Extract:
 		if x.Index != 0 {
 			break
@@ -243,6 +254,9 @@ func c08Describe(fn *ssa.Function, v ssa.Value) string {
 		return "?"
 	}
 	if prm, ok := v.(*ssa.Parameter); ok {
+		if prm.Parent() != nil {
+			fn = prm.Parent() // for a call made by a function literal: the enclosing function that declares the parameter
+		}
 		return "parameter " + prm.Name() + " of " + FuncName(fn)
 	}
 	return NewTermer(fn).Of(v).String()
@@ -410,14 +424,24 @@ func (r *Run) c08OptionsIdentity() {
 				return
 			}
 			seen[key{fn, idx}] = true
-			if depth > 0 {
-				if obj, ok := fn.Object().(*types.Func); !ok || obj.Exported() || fn.Parent() != nil {
-					return // a public entry point (or a closure): its parameter is the caller's choice
+			var sites []ssa.CallInstruction
+			if depth > 0 && fn.Parent() != nil {
+				// a function literal that hands on its own parameter: it is run by the calls of a function value of its
+				// signature in the declared function it belongs to (`for _, phase := range phases { phase(ctx) }`); what those
+				// hand in is judged like any other call site. When there is none, the literal is handed out of the function
+				// and its parameter is the choice of whoever runs it
+				sites = c08LiteralCallSites(fn)
+			} else {
+				if depth > 0 {
+					if obj, ok := fn.Object().(*types.Func); !ok || obj.Exported() {
+						return // a public entry point: its parameter is the caller's choice
+					}
 				}
-			}
-			sites, closed := repoCallSites(p, fn)
-			if !closed && depth > 0 {
-				return // also entered through an interface or as a function value: the parameter is the caller's choice
+				var closed bool
+				sites, closed = repoCallSites(p, fn)
+				if !closed && depth > 0 {
+					return // also entered through an interface or as a function value: the parameter is the caller's choice
+				}
 			}
 			for _, s := range sites {
 				caller := s.Parent()
@@ -436,20 +460,23 @@ func (r *Run) c08OptionsIdentity() {
 				} else {
 					root, why = c.carried(args[idx], 0)
 				}
-				lbl := "options.passed-on:" + c08Short(caller) + ">" + c08Short(fn)
+				// a call made by a function literal is a call of the declared function the literal belongs to: what the literal
+				// hands on is judged against the parameters of that function (which it can only reach through captured variables
+				// that hold one value, see c08CapturedValue)
+				lbl := "options.passed-on:" + c08Short(c08Outermost(caller)) + ">" + c08Short(fn)
 				if root == nil {
 					r.Bad(lbl, p.Pos(s.Pos()), FuncName(caller)+" hands "+fn.Name()+" options that are not determined by its own arguments ("+why+"): the population is speciated with a threshold other than the one of the options it is built with")
 					continue
 				}
 				prm, isPrm := root.(*ssa.Parameter)
-				if !isPrm || prm.Parent() != caller {
+				if !isPrm || !c08Encloses(prm.Parent(), caller) {
 					r.Bad(lbl, p.Pos(s.Pos()), FuncName(caller)+" hands "+fn.Name()+" "+c08Describe(caller, root)+" instead of the options/context it was given: the population is speciated with a threshold other than the one of the options it is built with")
 					continue
 				}
 				r.OK(lbl, p.Pos(s.Pos()), "hands on "+c08Describe(caller, root))
-				for i, q := range caller.Params {
+				for i, q := range prm.Parent().Params {
 					if q == prm {
-						up(caller, i, depth+1)
+						up(prm.Parent(), i, depth+1)
 					}
 				}
 			}
